@@ -22,6 +22,10 @@
 
 #include <deque>
 
+#ifdef BOOST_MQTT5_VERIF
+extern "C" void boost_mqtt5_verif_mutex_unlock(bool locked);
+#endif
+
 namespace boost::mqtt5::detail {
 
 namespace asio = boost::asio;
@@ -142,6 +146,10 @@ public:
     // Next queued operation, if any, will be executed in a manner
     // equivalent to asio::post.
     void unlock() {
+#ifdef BOOST_MQTT5_VERIF
+        // verification hook: reports the documented precondition to the harness
+        boost_mqtt5_verif_mutex_unlock(_locked);
+#endif
         while (!_waiting.empty()) {
             auto op = std::move(_waiting.front());
             _waiting.pop_front();
